@@ -1117,6 +1117,9 @@ def remove_duplicate_functions(source: str, preserve: Collection[str]) -> str:
 
     delete = set()
     renamings = {}
+    mentions = collections.defaultdict(list)
+    for node, name in _iter_identifier_mentions(root):
+        mentions[name].append(node)
 
     for funcdefs in function_defs.values():
         if len(funcdefs) == 1:
@@ -1130,8 +1133,15 @@ def remove_duplicate_functions(source: str, preserve: Collection[str]) -> str:
             preserved_nodes = {replacement}
 
         for node in funcdefs - preserved_nodes:
-            delete.add(node)
-            renamings[node.name] = replacement.name
+            # The names must only ever mean these functions: all their uses are renamed.
+            if all(
+                mention in funcdefs
+                or (isinstance(mention, ast.Name) and isinstance(mention.ctx, ast.Load))
+                for name in (node.name, replacement.name)
+                for mention in mentions[name]
+            ):
+                delete.add(node)
+                renamings[node.name] = replacement.name
 
     if not delete and not renamings:
         return source
